@@ -67,6 +67,15 @@ pub fn run(ctx: &Ctx, id: &str) -> i32 {
     run_types(ctx.threads, ctx.seed, &mut report, &schema, &keys, prop, id, &plan, make);
     presence_floor(&mut report, &schema, &keys);
     report.extra.insert("types".into(), json!(keys.len()));
+    // the same mutations on generated struct definitions (shapes no shipped type has: three and more mandatory tagged
+    // fields, every length style around nested containers, ...): the crates are those of C12 for this seed
+    if matches!(prop, Prop::C13 | Prop::C14) && std::env::var("VERIF_NO_GENERATED").is_err() {
+        let (n_crates, n_structs, per_type, bases) = if ctx.quick() { (1usize, 160usize, 20usize, 24usize) } else { (2, 320, 200, 300) };
+        report.rule.push_str(&format!(" The same mutations are applied to {n_crates} generated crate(s) of {n_structs} struct definitions drawn from the derive macro's attribute grammar (the crates of C12 for this seed; {bases} base values per struct), judged by the reference codec interpreting the generator's description."));
+        if let Some(rc) = crate::c12::run_generated(ctx, &mut report, id, n_crates, n_structs, per_type, bases) {
+            return rc;
+        }
+    }
     report.finish()
 }
 
